@@ -260,7 +260,9 @@ fn fs_probe() {
         Some(out)
     }
 
-    for_each_case(|line| {
+    // Two passes per case: with decoy files wherever an escaping join would land (an escaping READ finds a file), and
+    // in an empty sandbox (an escaping WRITE creates a file: persist_noclobber would refuse to replace a decoy).
+    let one_pass = |line: &str, with_decoys: bool| -> String {
         let sandbox = tempfile::tempdir().expect("tempdir");
         let t = sandbox.path().canonicalize().expect("canonical sandbox");
         let subst = |s: Option<String>| s.map(|x| x.replace("@T@", t.to_str().unwrap()));
@@ -279,7 +281,10 @@ fn fs_probe() {
         let content = format!("MODULE Linux x86 {} decoy\nFILE 0 a.c\n", id_txt);
         // decoys
         let mut cands: Vec<String> = vec!["../../outside/secret.bin".into(), "../../x".into(), "../x".into()];
-        for name in [&cf, &df].into_iter().flatten() {
+        if !with_decoys {
+            cands.clear();
+        }
+        for name in [&cf, &df].into_iter().flatten().filter(|_| with_decoys) {
             if name.contains('\0') {
                 continue;
             }
@@ -404,6 +409,17 @@ fn fs_probe() {
             show(&simple_ret, &symbols),
             made.join(",")
         )
+    };
+    for_each_case(|line| {
+        let first = one_pass(line, true);
+        if first.starts_with("F|ESC") {
+            return first;
+        }
+        let second = one_pass(line, false);
+        if second.starts_with("F|ESC") {
+            return second.replacen("F|ESC|", "F|ESC|(sandbox without decoys) ", 1);
+        }
+        first
     });
 }
 
